@@ -290,6 +290,37 @@ def fp_isd(isd, digits=None):
   return (fp_doc_params(isd), tuple(fp_element(r, digits, with_timing=True) for r in isd.iter_regions()))
 
 
+def has_leaf_real(e):
+  if isinstance(e, (model.Text, model.Br)):
+    return True
+  return any(has_leaf_real(c) for c in e)
+
+
+def region_paints_background(r):
+  """computed styles of an ISD region: does the region paint anything by itself"""
+  if r.get_style(SP.ShowBackground) is not styles.ShowBackgroundType.always:
+    return False
+  if r.get_style(SP.Display) is styles.DisplayType.none:
+    return False
+  if r.get_style(SP.Visibility) is styles.VisibilityType.hidden:
+    return False
+  op = r.get_style(SP.Opacity)
+  if op is not None and op <= 0:
+    return False
+  bg = r.get_style(SP.BackgroundColor)
+  if bg is None or bg.components[3] == 0:
+    return False
+  return True
+
+
+def fp_isd_render(isd, digits=None):
+  """Fingerprint up to render equivalence: regions without any text/br leaf that paint no background are dropped."""
+  if isd is None:
+    return None
+  return (fp_doc_params(isd), tuple(fp_element(r, digits, with_timing=True) for r in isd.iter_regions()
+                                    if has_leaf_real(r) or region_paints_background(r)))
+
+
 # ---------------------------------------------------------------------------------------------------
 # spec helpers
 
